@@ -22,6 +22,7 @@ const modPath = "github.com/d5/tengo/v2"
 // Engine holds the loaded program and all contracts.
 type Engine struct {
 	repo      string
+	specDir   string
 	prog      *ssa.Program
 	pkgs      map[string]*ssa.Package // by import path
 	tpkgs     map[string]*types.Package
